@@ -578,6 +578,9 @@ def build_pipeline_inspection(
     key_origin: Dict[str, int] = {}  # Maps context keys to the node that created them
     deleted_keys: set[str] = set()  # Tracks keys that have been deleted from context
     all_required_params: set[str] = set()  # All parameters required from context
+    # Parameters a node needs from context before any node has produced them.
+    # A key created only by a *later* node cannot satisfy an earlier consumer.
+    required_before_created: set[str] = set()
     all_created_keys: set[str] = set()  # All keys created by any node
     errors: List[str] = []
 
@@ -721,6 +724,8 @@ def build_pipeline_inspection(
             elif origin == "required":
                 context_params[name] = origin_idx
                 required_params.add(name)
+                if name not in deleted_keys:
+                    required_before_created.add(name)
 
         # Merge explicit context requirements exposed by processor
         hook = getattr(processor.__class__, "get_context_requirements", None)
@@ -729,6 +734,8 @@ def build_pipeline_inspection(
                 if key not in context_params:
                     context_params[key] = key_origin.get(key)
                 required_params.add(key)
+                if key not in key_origin and key not in deleted_keys:
+                    required_before_created.add(key)
 
         all_required_params.update(required_params)
 
@@ -830,7 +837,9 @@ def build_pipeline_inspection(
 
     # Calculate pipeline-level required context keys
     # These are parameters required by nodes but not created by any node
-    required_context_keys = all_required_params - all_created_keys
+    required_context_keys = (
+        all_required_params - all_created_keys
+    ) | required_before_created
 
     return PipelineInspection(
         nodes=inspection_nodes,
